@@ -128,6 +128,23 @@ Theorem C14_error_value_received : forall encode k error eb b oe buf0,
 Proof. exact error_value_received. Qed.
 Print Assumptions C14_error_value_received.
 
+(* the hand model is one function (invoke / fficallback / rawerr) for both conventions; that both paths of the property
+   really run through the modelled code is a checked, regenerated fact: ffi.callback() -> libffi closure ->
+   invoke_callback -> general_invoke_callback(1, ...) with the error value encoded with encode = 1; extern "Python" ->
+   cffi_call_python -> general_invoke_callback(0, args, args, ...) with encode = 0; inside, every argument goes through
+   convert_to_object, the result through convert_from_object_fficallback, failures through the error-value memcpy,
+   onerror and the fetch/report sequence *)
+Theorem C14_paths_use_modelled_code :
+  (gic_args_libffi = true /\ gic_args_externpy = true /\ gic_arg_convert = true) /\
+  (gic_result = true /\ fficallback_shape = true) /\ (gic_error_value = true /\ prepare_rawerr = true) /\
+  gic_onerror = true /\ gic_no_escape = true /\ path_ffi_callback = true /\ path_extern_python = true.
+Proof.
+  pose proof path_callback_args; pose proof path_externpy_args; pose proof path_result; pose proof path_error_value;
+  pose proof path_onerror; pose proof path_no_escape; pose proof path_entry_ffi_callback; pose proof path_entry_extern_python.
+  intuition.
+Qed.
+Print Assumptions C14_paths_use_modelled_code.
+
 (* ---- non-vacuity *)
 Definition T_INT : xtype := XPrim [105;110;116]%N 4.
 Definition T_LD : xtype := XPrim LONG_DOUBLE 16.
